@@ -206,11 +206,14 @@ Section Rewrite.
     | [] => filter (fun c => String.eqb (effective_ns (c_cur c)) ns) cands
     end.
 
-  (* filterMapCandidatesByNamespace *)
+  (* filterMapCandidatesByNamespace.  After the repair R-nameref-empty-namespace-subject a null or
+     empty `namespace` in the referring mapping is treated like an absent one (all candidates). *)
   Definition mapping_cands (kvs : list (string * node)) (cands : list cand) : list cand :=
     match find_field "namespace" kvs with
     | None => cands
-    | Some ns_node => by_namespace (node_value ns_node) cands
+    | Some ns_node =>
+        if is_null ns_node || String.eqb (node_value ns_node) "" then cands
+        else by_namespace (node_value ns_node) cands
     end.
 
   (* Filter.setMapping *)
